@@ -298,7 +298,24 @@ def cond_atoms(n, polarity=True):
                     cl, cr = cr, cl
                 return [("(%s %s %s)" % (cl, op, cr), True)]
         return [(c, polarity)]
-    return [(canon(n), polarity)]
+    return [(canon(n), polarity)] + _expand_helper(n, polarity)
+
+
+def _expand_helper(n, polarity, depth=0):
+    """`if (noReadyJobs())` where the callee is a parameter-less const/static helper whose body is `return E;`: the branch also
+    establishes what E establishes (names inside a member helper denote the same members as in the caller)."""
+    if depth > 2 or n is None or n.get("k") != "call" or n.get("args") or n.get("ck") not in ("member", "free"):
+        return []
+    if n.get("ck") == "member" and "obj" in n and strip_noise(n.child("obj")) is not None and strip_noise(n.child("obj")).get("k") != "this":
+        return []
+    prog = getattr(n.fn, "prog", None)
+    g = prog.functions.get(n.get("fk")) if prog is not None and n.get("fk") else None
+    if g is None or g.body is None or g.params or (n.get("ck") == "member" and not n.get("cm")):
+        return []
+    ch = [g.nodes[c] for c in g.body.get("ch", [])] if g.body.get("k") == "compound" else [g.body]
+    if len(ch) != 1 or ch[0].get("k") != "return" or "e" not in ch[0]:
+        return []
+    return cond_atoms(ch[0].child("e"), polarity)
 
 
 def assigned_roots(fn, e):
@@ -429,14 +446,25 @@ class BranchFacts(object):
                 return w
 
         def transfer(st, pos, e):
-            if not st:
+            # a named condition: `const bool missingColon = cur == end || *cur != ':';` -- remember what the name stands for, for as long as
+            # nothing it mentions (nor the name itself) is written
+            nd_ = fn.nodes[e] if isinstance(e, int) else None
+            add = []
+            if nd_ is not None and nd_.get("k") == "decl":
+                for v in nd_.get("vars", []):
+                    if "init" in v and fn.db_types[v["t"]].replace("const ", "").strip() == "bool":
+                        add.append(("@def:%s#%d %s" % (v["n"], v["init"], canon(fn.nodes[v["init"]])), True))
+                        # the initialiser may be the result of an engine operation: an event, like a branch on the call itself
+                        self._note_event(fn.nodes[v["init"]])
+            if not st and not add:
                 return st
+            st = st or frozenset()
             w = kill_fn(fn, e)
             if self.extra_kill:
                 w |= self.extra_kill(fn, e)
-            if not w:
-                return st
-            return frozenset(f for f in st if f[0] in self.event_atoms or not fact_mentions(f[0], w))
+            if w:
+                st = frozenset(f for f in st if f[0] in self.event_atoms or not fact_mentions(f[0], w))
+            return (st | frozenset(add)) if add else st
 
         def edge(st, blk, si, s):
             t = blk.term
@@ -454,7 +482,17 @@ class BranchFacts(object):
                 pol = (si == 0)
                 ec = blk.effective_cond()
                 self._note_event(ec)
-                return st | frozenset(cond_atoms(c, pol)) | frozenset(cond_atoms(ec, pol))
+                atoms = set(cond_atoms(c, pol)) | set(cond_atoms(ec, pol))
+                # expand named conditions still in force
+                defs = {}
+                for a_, _p in st:
+                    if a_.startswith("@def:"):
+                        nm_, rest = a_[5:].split("#", 1)
+                        defs[nm_] = int(rest.split(" ", 1)[0])
+                for a_, p_ in list(atoms):
+                    if a_ in defs:
+                        atoms |= set(cond_atoms(fn.nodes[defs[a_]], p_))
+                return st | frozenset(atoms)
             if cls == "SwitchStmt":
                 cases = t.get("cases", [])
                 if si < len(cases) and isinstance(cases[si], dict) and "v" in cases[si]:
@@ -646,3 +684,78 @@ def bool_eval(fn, n, env, depth=0):
         if len(inits) == 1 and writes == 0:
             return bool_eval(fn, inits[0], env, depth + 1)
     return None
+
+
+# -------------------------------------------------- boolean normal form of small conditions
+def norm_bool(fn, n, depth=0):
+    """(atom, polarity) for a simple boolean expression, looking through: `!`, `c ? true : false`, a bool local that is initialised once
+    and never written, and the spellings of emptiness (`x.size() == 0`, `0 == x.size()`, `x.empty()`, `x.size() > 0`, `x.size() != 0`,
+    `0 < x.size()`, `!x.empty()`).  The atom of an emptiness test is `<x>.empty()`.  Anything else: (canon(n), True)."""
+    from .facts import core
+    n = core(n)
+    if n is None:
+        return (None, True)
+    k = n.get("k")
+    if k == "un" and n.get("op") == "!":
+        a, p = norm_bool(fn, n.child("e"), depth)
+        return (a, not p)
+    if k == "cond":
+        ta, fa = core(n.child("a")), core(n.child("b"))
+        if ta is not None and fa is not None and ta.get("k") == "bool" and fa.get("k") == "bool" and ta.get("v") != fa.get("v"):
+            a, p = norm_bool(fn, n.child("c"), depth)
+            return (a, p if ta.get("v") else not p)
+    if k == "ref" and depth < 4 and n.get("did") is not None:
+        inits, writes = [], 0
+        for d in fn.nodes:
+            if d.get("k") == "decl":
+                for v in d.get("vars", []):
+                    if v.get("did") == n.get("did") and "init" in v:
+                        inits.append(fn.nodes[v["init"]])
+            if d.get("k") == "bin" and d.get("op", "").endswith("=") and d["op"] not in ("==", "!=", "<=", ">=") and \
+                    core(d.child("l")) is not None and core(d.child("l")).get("did") == n.get("did"):
+                writes += 1
+        if len(inits) == 1 and writes == 0:
+            return norm_bool(fn, inits[0], depth + 1)
+    if k == "call" and (n.get("fn") or "").split("::")[-1] == "empty" and "obj" in n and not n.get("args"):
+        return ("%s.empty()" % canon(n.child("obj")), True)
+    if k == "bin" and n.get("op") in ("==", "!=", ">", "<", ">=", "<="):
+        l, r = core(n.child("l")), core(n.child("r"))
+        op = n["op"]
+
+        def is_size(x):
+            return x is not None and x.get("k") == "call" and (x.get("fn") or "").split("::")[-1] in ("size", "length") and "obj" in x
+
+        def is_zero(x):
+            return x is not None and x.get("k") == "int" and x.get("v") == 0
+        if is_zero(l) and is_size(r):
+            l, r, op = r, l, {"<": ">", ">": "<", "<=": ">=", ">=": "<=", "==": "==", "!=": "!="}[op]
+        if is_size(l) and is_zero(r):
+            atom = "%s.empty()" % canon(l.child("obj"))
+            if op in ("==", "<="):
+                return (atom, True)
+            if op in ("!=", ">"):
+                return (atom, False)
+    return (canon(n), True)
+
+
+def established_cases(st, names):
+    """enumerators (or integer case values, as strings) that the facts `st` positively establish for *some* subject, whether the code says
+    `switch (x) case N:` or `if (x == N)` / `if (N == x)` (also through a local copy of x)."""
+    import re
+    out = []
+    names = set(str(n) for n in names)
+    for a, p in st or ():
+        if not p:
+            continue
+        if a.startswith("switch:"):
+            v = a.split("=")[-1].split("::")[-1]
+            if v in names and v not in out:
+                out.append(v)
+            continue
+        m = re.match(r"^\((.+) == (.+)\)$", a)
+        if m:
+            for side in (m.group(1), m.group(2)):
+                v = side.split("::")[-1].strip("()")
+                if v in names and v not in out:
+                    out.append(v)
+    return out
